@@ -7,8 +7,10 @@ pub mod corpus_all;
 pub mod c03;
 pub mod c04;
 pub mod c05;
+pub mod c07;
 pub mod c08;
 pub mod c10;
+pub mod c12;
 pub mod selftest;
 
 pub fn dispatch(id: &str, tier: Tier, replay: Option<&str>, rest: &[String]) -> i32 {
@@ -19,8 +21,10 @@ pub fn dispatch(id: &str, tier: Tier, replay: Option<&str>, rest: &[String]) -> 
         "C03" => c03::run(tier, replay),
         "C04" => c04::run(tier, replay),
         "C05" => c05::run(tier, replay),
+        "C07" => c07::run(tier, replay),
         "C08" => c08::run(tier, replay),
         "C10" => c10::run(tier, replay),
+        "C12" => c12::run(tier, replay),
         "selftest" => selftest::run(),
         _ => {
             eprintln!("unknown property {id}");
